@@ -1,4 +1,6 @@
 import Amgcl.Proofs.KrylovGMRESOuter
+import Amgcl.Proofs.KrylovFGMRESRestart
+import Amgcl.Proofs.KrylovFGMRESExample
 import Amgcl.Proofs.KrylovGMRESExample
 import Mathlib.Tactic.FinCases
 import Mathlib.Tactic.NormNum
@@ -50,6 +52,45 @@ theorem hinjb : Function.Injective (Tl .right (matOf Ab 3 3) (LinearMap.id : (Fi
   · show u 1 = v 1; linarith
   · show u 2 = v 2; linarith
 
+/-! FGMRES on the same system with the NON-LINEAR preconditioner function `Pc u = (u₀³,u₁³,u₂³)` of
+`KrylovFGMRESExample.lean` (it fixes `e₁, e₂`, so `z₀ = e₁`, `z₁ = e₂` and the numbers are the same) -/
+open Amgcl.Krylov.ExF in
+def prmfb : FGMRES.Params ℚ := { maxiter := 5, tol := 1/100, abstol := 0, nsSearch := false, M := 3 }
+def stfb : FGMRES.St ℚ := FGMRES.init stdIp Amgcl.rsqrt Ab (FGMRES.Work.fresh 3) fg xg
+
+open Amgcl.Krylov.ExF in
+theorem hstfb : FCycleStart Amgcl.rsqrt Ab fg stfb := fcycleStart_head Amgcl.rsqrt Ab fg _ (by decide +kernel)
+theorem hxfb : stfb.x.size = 3 := by decide +kernel
+open Amgcl.Krylov.ExF in
+theorem hrootsfb : RootsExact .right Amgcl.rsqrt Ab Pc (toG stfb) 2 :=
+  ⟨by decide +kernel, by decide +kernel, by decide +kernel⟩
+open Amgcl.Krylov.ExF in
+theorem hnbfb : ∀ i, i < 1 → arnoldiNorm .right Amgcl.rsqrt Ab Pc (toG stfb) i ≠ 0 := by decide +kernel
+open Amgcl.Krylov.ExF in
+theorem hbfb : arnoldiNorm .right Amgcl.rsqrt Ab Pc (toG stfb) 1 = 0 := by decide +kernel
+
+/-- `A` is injective -/
+theorem hAinjb : ∀ u : Fin 3 → ℚ, matOf Ab 3 3 *ᵥ u = 0 → u = 0 := by
+  intro u h
+  have : matOf Ab 3 3 *ᵥ u = matOf Ab 3 3 *ᵥ 0 := by rw [h, mulVec_zero]
+  exact hinjb this
+
+open Amgcl.Krylov.ExF in
+/-- `z₀ = e₁`, `z₁ = e₂` are linearly independent -/
+theorem hindepb : ∀ c : ℕ → ℚ,
+    ∑ i ∈ Finset.range 2, c i • vecOf 3 ((fInnerPass Amgcl.rsqrt Ab Pc stfb 2).w.z.get i) = 0 →
+    ∀ i, i < 2 → c i = 0 := by
+  intro c h i hi
+  have hz0 : (fInnerPass Amgcl.rsqrt Ab Pc stfb 2).w.z.get 0 = #[1, 0, 0] := by decide +kernel
+  have hz1 : (fInnerPass Amgcl.rsqrt Ab Pc stfb 2).w.z.get 1 = #[0, 1, 0] := by decide +kernel
+  rw [Finset.sum_range_succ, Finset.sum_range_one, hz0, hz1] at h
+  have h0 := congrFun h 0
+  have h1 := congrFun h 1
+  simp [vecOf] at h0 h1
+  match i, hi with
+  | 0, _ => exact h0
+  | 1, _ => exact h1
+
 end Amgcl.Krylov.ExB
 
 namespace Amgcl.Krylov.ExR
@@ -74,6 +115,29 @@ theorem hrootsr : ∀ i, i < 2 → RootsExact .right Amgcl.rsqrt Ar Pg (outerPas
     (inner prmr stdIp Amgcl.rsqrt Ar Pg (1/2) (outerPass prmr Amgcl.rsqrt Ar Pg fr (1/2) str i)).j := by
   intro i hi
   have hj : ∀ i, i < 2 → (inner prmr stdIp Amgcl.rsqrt Ar Pg (1/2) (outerPass prmr Amgcl.rsqrt Ar Pg fr (1/2) str i)).j = 1 := by
+    decide +kernel
+  rw [hj i hi]
+  match i, hi with
+  | 0, _ => exact ⟨by decide +kernel, by decide +kernel, by decide +kernel⟩
+  | 1, _ => exact ⟨by decide +kernel, by decide +kernel, by decide +kernel⟩
+
+/-! FGMRES(1) on the same system; the preconditioner function returns the first two entries of its argument (the identity on
+vectors of length 2, and of length 2 on every argument, as the FGMRES theorems require): the same numbers -/
+def Pf : Vec ℚ → Vec ℚ := fun u => Array.ofFn (n := 2) (fun i => u.getD i.val 0)
+def prmfr : FGMRES.Params ℚ := { maxiter := 2, tol := 1/10, abstol := 0, nsSearch := false, M := 1 }
+def stfr : FGMRES.St ℚ := FGMRES.init stdIp Amgcl.rsqrt Ar (FGMRES.Work.fresh 2) fr xr
+
+theorem hPfsz : ∀ u : Vec ℚ, (Pf u).size = 2 := fun u => by simp [Pf]
+theorem hpfr : prologueA prmfr.nsSearch stdIp Amgcl.rsqrt 0 fr = .go 5 :=
+  (prologueA_go _ _ _ _ _ _).mpr (Or.inr (by decide +kernel))
+theorem hepsfr : FGMRES.epsTol prmfr 5 = 1/2 := by decide +kernel
+theorem hstopfr : ∀ i, i < 2 →
+    FGMRES.stop prmfr.maxiter (1/2) (fouterPass prmfr Amgcl.rsqrt Ar Pf fr (1/2) stfr i) = false := by decide +kernel
+theorem hrootsfr : ∀ i, i < 2 → RootsExact .right Amgcl.rsqrt Ar Pf (toG (fouterPass prmfr Amgcl.rsqrt Ar Pf fr (1/2) stfr i))
+    (FGMRES.inner prmfr stdIp Amgcl.rsqrt Ar Pf (1/2) (fouterPass prmfr Amgcl.rsqrt Ar Pf fr (1/2) stfr i)).j := by
+  intro i hi
+  have hj : ∀ i, i < 2 →
+      (FGMRES.inner prmfr stdIp Amgcl.rsqrt Ar Pf (1/2) (fouterPass prmfr Amgcl.rsqrt Ar Pf fr (1/2) stfr i)).j = 1 := by
     decide +kernel
   rw [hj i hi]
   match i, hi with
